@@ -90,7 +90,7 @@ fn(HK + ".accept", params={"subprotocol": "none | str", "additional_headers": "a
        # compression state of ONE connection; the one handed to the new connection is created for it
        ("C10.accept.extension-passed", "n_after_gap('ws_conn_new') == 1 and same(after_gap('ws_conn_new')[0][1], local('extensions'))", "C10,C11"),
        ("C11.accept.accepted", "self.accepted", "C11"),
-       ("C11.accept.subprotocol-offered", "implies(subprotocol is not None, self.subprotocols is not None and subprotocol in self.subprotocols)", "C11"),
+       ("C11.accept.subprotocol-offered", "implies(subprotocol is not None, self.subprotocols is not None and subprotocol in self.subprotocols)", "C11,C12"),
    ],
    props=("C11",))
 
